@@ -8,7 +8,7 @@ export GOFLAGS=-mod=mod GOPROXY=off GOSUMDB=off GOTOOLCHAIN=local; unset GOWORK
 W=/tmp/vw-$P-$L
 git -C /repo worktree remove --force $W 2>/dev/null; rm -rf $W
 git -C /repo worktree add -q --detach $W HEAD || exit 2
-CMD=$(jq -r .demo_cmd "$SRC/$L.meta.json")
+CMD=$(jq -r .demo_cmd "$SRC/$L.meta.json" | sed -E 's/ {2,}\(.*$//')   # a trailing explanation in parentheses is not part of the command
 CMD=$(echo "$CMD" | sed -E "s#<repo>#$W#g; s#<worktree>#$W#g; s#/tmp/wt[0-9]*-[A-Z0-9]+#$W#g; s#cp ([A-Z]+\.demo[_a-z.]*go)#cp $SRC/\1#")
 res() { echo "$1"; }
 cd $W
